@@ -264,11 +264,19 @@ def mk_estimate(I):
     return o, n, CorrAt, CountAt
 
 
-def fold_unit(X, method):
+def fold_unit(X, method, own_range=False):
+    """own_range (the C06 reading): the estimate carries an ARBITRARY declared range (it may have been narrowed with set_range, or the library groups
+    may have been widened since the estimate was made) and must refuse a temperature outside it even when every constituent answers"""
     def run(I):
         ctx = I.ctx
         o, n, CorrAt, CountAt = mk_estimate(I)
         T = I.fresh('T', 'real')
+        outside = z3.BoolVal(False)
+        if own_range or ctx.choose([True, True], 'the estimate has no range / a declared range') == 1:
+            lo, hi = I.fresh('est_lo', 'real'), I.fresh('est_hi', 'real')
+            ctx.assume(lo <= hi)
+            o.fields['range'] = (lo, hi)
+            outside = z3.Or(T < lo, T > hi)
         kw = {}
         if X == 'SoR':
             kw = {'S_elements': [None, False][ctx.choose([True, True])]}
@@ -280,11 +288,13 @@ def fold_unit(X, method):
             # spec: IncompleteDataError iff some constituent raises it; the skolem index k is the raising element
             if len(folds) == 0 and ctx.counters.get('fold_k'):
                 k = z3.Int('fold_k')
-                check_outcome(I, out, raises={'IncompleteDataError': Raises[X](CorrAt(k), T)})
+                check_outcome(I, out, raises={'IncompleteDataError': Raises[X](CorrAt(k), T), 'OutsideCorrelationError': outside})
             else:
-                check_outcome(I, out, raises={})
+                check_outcome(I, out, raises={'OutsideCorrelationError': outside})
             return {'inputs': {}}
         r = out.value
+        if own_range:
+            ctx.oblige('a value is returned only for a temperature inside the range the estimate itself declares (whatever its constituents accept)', z3.Not(outside))
         if ctx.counters.get('fold_k') is None:
             # empty mapping: the sum over no terms
             ctx.oblige('empty estimate sums to 0', z3.And(n == 0, z3_of(r) == 0))
